@@ -619,6 +619,9 @@ func (w *vzWorld) start(nd *vzNode) {
 	nd.e, nd.newErr = nil, nil
 	inc := nd.inc
 	w.mu.Unlock()
+	if inc > 1 {
+		w.s.Note("restarted")
+	}
 	nctx, cancel := context.WithCancel(vsimcore.WithIdent(w.rootCtx, nd.ident()))
 	nd.cancel = cancel
 	nlog := w.log.With("vznode", nd.ident())
